@@ -31,6 +31,8 @@ import (
 	"crypto/cipher"
 	"crypto/ecdsa"
 	"crypto/ed25519"
+	stdelliptic "crypto/elliptic"
+	"crypto/rand"
 	"crypto/hmac"
 	"crypto/sha1" //nolint:gosec
 	"crypto/sha256"
@@ -46,12 +48,17 @@ import (
 	"testing"
 	"time"
 
-	"github.com/pion/dtls/v3/pkg/crypto/selfsign"
+	dtlsflight "github.com/pion/dtls/v3/internal/flight"
 	dtlsstate "github.com/pion/dtls/v3/internal/state"
+	"github.com/pion/dtls/v3/pkg/crypto/selfsign"
 	"github.com/pion/dtls/v3/pkg/protocol"
+	"github.com/pion/dtls/v3/pkg/protocol/handshake"
 	"golang.org/x/crypto/chacha20poly1305"
 )
 
+const c10SiteKeyLog = "KeyLogWriter (internal/config HandshakeConfig.WriteKeyLog and its callers)"
+const c10SiteSKE = "pkg/protocol/handshake/message_server_key_exchange.go Marshal (PSK / ECDHE_PSK)"
+const c10SiteCV13 = "pkg/crypto/signaturehash SelectSignatureScheme13 (DTLS 1.3 CertificateVerify)"
 const c10SiteHS = "internal/flight/flight12 handshake_messages (Finished verify_data, CertificateVerify, session hash)"
 
 // ---------------------------------------------------------------- independent wire decoder
@@ -104,6 +111,9 @@ func c10WireMessages(t *testing.T, dgs []vDatagram) []*c10WireMsg {
 		b := d.Data
 		for len(b) >= 13 {
 			ct := b[0]
+			if ct&0xe0 == 0x20 {
+				break // DTLS 1.3 unified header: protected, not looked at here
+			}
 			epoch := int(binary.BigEndian.Uint16(b[3:5]))
 			ln := int(binary.BigEndian.Uint16(b[11:13]))
 			if 13+ln > len(b) {
@@ -414,6 +424,13 @@ type c10HSInfo struct {
 	CVOk    *bool  `json:"cv_ok,omitempty"`
 	CVAlg   string `json:"cv_alg,omitempty"`
 	CVErr   string `json:"cv_err,omitempty"`
+	Version string `json:"version,omitempty"`
+	Label   string `json:"label,omitempty"`    // key log label looked up
+	KeyLog  string `json:"key_log,omitempty"`  // what the KeyLogWriter received
+	Hint    string `json:"hint,omitempty"`     // server psk_identity_hint: absent | present
+	KeyExch string `json:"key_exchange,omitempty"`
+	Key     string `json:"key,omitempty"`      // curve of the signing key (DTLS 1.3 CertificateVerify)
+	Scheme  string `json:"scheme,omitempty"`   // SignatureScheme on the wire
 }
 
 type c10HSCase struct {
@@ -478,6 +495,7 @@ type c10HSVariant struct {
 	noHVR    bool
 	mtu      int
 	resume   bool // run the handshake twice with session stores; the second one is observed
+	noHint   bool // the server has a PSK callback but no identity hint (legal)
 	dropOnce bool // lose the first datagram of the server's certificate flight once (retransmission)
 }
 
@@ -508,6 +526,8 @@ func c10HSVariants() []c10HSVariant {
 		{name: "psk/cbc-sha256", suite: TLS_PSK_WITH_AES_128_CBC_SHA256},
 		{name: "psk/chacha/no-ems", suite: TLS_PSK_WITH_CHACHA20_POLY1305_SHA256, noEMS: true},
 		{name: "ecdhe-psk/cbc-sha256", suite: TLS_ECDHE_PSK_WITH_AES_128_CBC_SHA256},
+		{name: "ecdhe-psk/cbc-sha256/no-server-hint", suite: TLS_ECDHE_PSK_WITH_AES_128_CBC_SHA256, noHint: true},
+		{name: "psk/gcm/no-server-hint", suite: TLS_PSK_WITH_AES_128_GCM_SHA256, noHint: true},
 	}
 
 	return vs
@@ -545,6 +565,9 @@ func c10Configs(t *testing.T, v c10HSVariant) (*dtlsConfig, *dtlsConfig) {
 		}
 	}
 	ccfg.MaxVersion, scfg.MaxVersion = protocol.Version1_2, protocol.Version1_2
+	if v.noHint {
+		scfg.PSKIdentityHint = nil
+	}
 	if v.noEMS {
 		ccfg.ExtendedMasterSecret, scfg.ExtendedMasterSecret = DisableExtendedMasterSecret, DisableExtendedMasterSecret
 	}
@@ -558,20 +581,37 @@ func c10Configs(t *testing.T, v c10HSVariant) (*dtlsConfig, *dtlsConfig) {
 	return ccfg, scfg
 }
 
-func c10KeyLogLine(t *testing.T, klog *c10KeyLog) (cr, ms []byte) {
-	t.Helper()
-	for _, line := range strings.Split(klog.String(), "\n") {
+// c10KeyLogLookup: the line `label <random> <secret>` a passive decoder finds under the ClientHello.random
+// it saw on the wire; when there is none, the last line with that label (for the report).
+func c10KeyLogLookup(log, label string, wireCR []byte) (lineCR, secret []byte, found bool) {
+	for _, line := range strings.Split(log, "\n") {
 		f := strings.Fields(line)
-		if len(f) == 3 && f[0] == "CLIENT_RANDOM" {
-			cr, _ = hex.DecodeString(f[1])
-			ms, _ = hex.DecodeString(f[2])
+		if len(f) != 3 || f[0] != label {
+			continue
 		}
-	}
-	if len(cr) != 32 || len(ms) != 48 {
-		t.Fatalf("no CLIENT_RANDOM line in the key log: %q", klog.String())
+		r, _ := hex.DecodeString(f[1])
+		sec, _ := hex.DecodeString(f[2])
+		if bytes.Equal(r, wireCR) {
+			return r, sec, true
+		}
+		lineCR, secret = r, sec
 	}
 
-	return cr, ms
+	return lineCR, secret, false
+}
+
+// c10EmitKeyLog: function code 18 - the claim "this side's key log has a usable line for `label`".
+func c10EmitKeyLog(out *vOut, info c10HSInfo, side, label, log string, wireCR, secret []byte) {
+	lcr, lsec, _ := c10KeyLogLookup(log, label, wireCR)
+	c := c10HSCase{HS: info}
+	c.HS.Side, c.HS.Check, c.HS.Label, c.HS.KeyLog = side, "keylog", label, log
+	if len(c.HS.KeyLog) > 600 {
+		c.HS.KeyLog = c.HS.KeyLog[:600] + "..."
+	}
+	c.Fn, c.H, c.Site = 18, 256, c10SiteKeyLog
+	c.Tag = "live handshake: key log line under ClientHello.random"
+	c.In, c.N, c.Out = []string{vHex(wireCR), vHex(lcr), vHex(lsec), vHex(secret)}, []uint64{}, []string{"01"}
+	out.emit(c)
 }
 
 func c10FindLast(msgs []*c10WireMsg, from string, typ int) int {
@@ -604,15 +644,15 @@ func TestVerifC10Handshake12(t *testing.T) {
 func c10RunHandshake(t *testing.T, out *vOut, v c10HSVariant) { //nolint:cyclop,gocyclo,maintidx
 	t.Helper()
 	ccfg, scfg := c10Configs(t, v)
-	klog := &c10KeyLog{}
-	ccfg.KeyLogWriter = klog
+	klog, sklog := &c10KeyLog{}, &c10KeyLog{}
+	ccfg.KeyLogWriter, scfg.KeyLogWriter = klog, sklog
 	if v.resume {
 		ccfg.sessionStore = &c10MemStore{m: map[string]Session{}}
 		scfg.sessionStore = &c10MemStore{m: map[string]Session{}}
 		first := c10Establish(t, ccfg, scfg)
 		first.close()
-		klog = &c10KeyLog{}
-		ccfg.KeyLogWriter = klog
+		klog, sklog = &c10KeyLog{}, &c10KeyLog{}
+		ccfg.KeyLogWriter, scfg.KeyLogWriter = klog, sklog
 	}
 	lab := newLab(t, ccfg, scfg)
 	if v.dropOnce {
@@ -639,7 +679,6 @@ func c10RunHandshake(t *testing.T, out *vOut, v c10HSVariant) { //nolint:cyclop,
 			t.Fatalf("%s: %s not completely captured", v.name, c10MsgName(m))
 		}
 	}
-	crLog, ms := c10KeyLogLine(t, klog)
 	chIdx, shIdx := c10FindLast(msgs, "client", 1), c10FindLast(msgs, "server", 2)
 	if chIdx < 0 || shIdx < 0 || len(msgs[chIdx].Body) < 34 {
 		t.Fatalf("%s: no ClientHello / ServerHello on the wire", v.name)
@@ -649,8 +688,19 @@ func c10RunHandshake(t *testing.T, out *vOut, v c10HSVariant) { //nolint:cyclop,
 	if !ok {
 		t.Fatalf("%s: unparsable ServerHello", v.name)
 	}
-	if !bytes.Equal(cr, crLog) {
-		t.Fatalf("%s: key log client random differs from the ClientHello random on the wire", v.name)
+	// the master secret a decoder gets from either key log under the ClientHello.random of the wire (when
+	// neither log has such a line the client's own state is used so that the other checks still run; the
+	// key log cases below then fail)
+	_, ms, okc := c10KeyLogLookup(klog.String(), "CLIENT_RANDOM", cr)
+	if !okc {
+		var oks bool
+		if _, ms, oks = c10KeyLogLookup(sklog.String(), "CLIENT_RANDOM", cr); !oks {
+			cst, _ := lab.Client.Conn.ConnectionState()
+			ms = bytes.Clone(cst.masterSecret)
+		}
+	}
+	if len(ms) != 48 {
+		t.Fatalf("%s: no master secret", v.name)
 	}
 	sp, known := c10SuiteTable[suiteID]
 	if !known {
@@ -666,6 +716,41 @@ func c10RunHandshake(t *testing.T, out *vOut, v c10HSVariant) { //nolint:cyclop,
 	}
 	if v.auth != NoClientCert && !strings.Contains(sp.name, "_PSK_") && !info.CertReq {
 		t.Fatalf("%s: no CertificateRequest on the wire", v.name)
+	}
+
+	info.Version = "DTLS 1.2"
+	// (the records below are opened with `ms`, so `ms` is the secret a usable line must carry)
+	c10EmitKeyLog(out, info, "client", "CLIENT_RANDOM", klog.String(), cr, ms)
+	c10EmitKeyLog(out, info, "server", "CLIENT_RANDOM", sklog.String(), cr, ms)
+
+	// PSK / ECDHE_PSK ServerKeyExchange (RFC 4279 2, RFC 5489 2): hint<0..2^16-1> [|| ServerECDHParams]
+	if skeIdx := c10FindLast(msgs, "server", 12); skeIdx >= 0 && strings.Contains(sp.name, "_PSK_") {
+		body := msgs[skeIdx].Body
+		si := info
+		si.Side, si.Check, si.Hint, si.KeyExch = "server", "server_key_exchange", "present", "PSK"
+		if scfg.PSKIdentityHint == nil {
+			si.Hint = "absent"
+		}
+		c := c10HSCase{HS: si}
+		c.Fn, c.H, c.Site = 16, sp.hcode, c10SiteSKE
+		c.Tag = "live handshake: PSK ServerKeyExchange encoding"
+		c.In, c.N, c.Out = []string{vHex(scfg.PSKIdentityHint)}, []uint64{}, []string{vHex(body)}
+		if strings.Contains(sp.name, "ECDHE_PSK") {
+			c.HS.KeyExch = "ECDHE_PSK"
+			// ServerECDHParams is the tail of the message: 03 | named_curve(2) | len(1) | point
+			var curve uint64
+			var pub []byte
+			for _, pl := range []int{32, 65, 97, 133} {
+				if n := len(body); n >= pl+4 && body[n-pl-4] == 3 && int(body[n-pl-1]) == pl {
+					curve, pub = uint64(binary.BigEndian.Uint16(body[n-pl-3:])), body[n-pl:]
+				}
+			}
+			if pub == nil {
+				t.Fatalf("%s: no ServerECDHParams at the end of the ServerKeyExchange %x", v.name, body)
+			}
+			c.In, c.N = append(c.In, vHex(pub)), []uint64{curve}
+		}
+		out.emit(c)
 	}
 
 	// the two Finished: open the records, check the shape, then hand everything that preceded each on
@@ -748,5 +833,98 @@ func c10RunHandshake(t *testing.T, out *vOut, v c10HSVariant) { //nolint:cyclop,
 				out.emit(c)
 			}
 		}
+	}
+}
+
+// ---------------------------------------------------------------- DTLS 1.3
+
+// TestVerifC10Handshake13: DTLS 1.3 handshakes with ECDSA server keys on different curves and a
+// KeyLogWriter on both sides.
+//
+//	fn 64  n = NamedGroup of the server's certificate key, out = SignatureScheme of the server's
+//	       CertificateVerify as the client received and accepted it (RFC 8446 4.2.3: the scheme names the curve)
+//	fn 18  per side and NSS label: the key log has a line `label <ClientHello.random> <secret>` with the
+//	       secret of the connection (secrets read from the client's key schedule, in-package)
+func TestVerifC10Handshake13(t *testing.T) {
+	out := newVOut(t)
+	type v13 struct {
+		name  string
+		curve stdelliptic.Curve
+		group uint64
+	}
+	for _, v := range []v13{
+		{"dtls13/ecdsa-secp256r1-server-key", stdelliptic.P256(), 23},
+		{"dtls13/ecdsa-secp384r1-server-key", stdelliptic.P384(), 24},
+	} {
+		vBubble(t, func(t *testing.T) {
+			key, err := ecdsa.GenerateKey(v.curve, rand.Reader)
+			if err != nil {
+				t.Fatal(err)
+			}
+			cert, err := selfsign.SelfSign(key)
+			if err != nil {
+				t.Fatal(err)
+			}
+			ccfg, scfg := vCertPair()
+			ccfg.InsecureSkipVerify = true
+			scfg.Certificates = []tls.Certificate{cert}
+			ccfg.MinVersion, ccfg.MaxVersion = protocol.Version1_3, protocol.Version1_3
+			scfg.MinVersion, scfg.MaxVersion = protocol.Version1_3, protocol.Version1_3
+			klog, sklog := &c10KeyLog{}, &c10KeyLog{}
+			ccfg.KeyLogWriter, scfg.KeyLogWriter = klog, sklog
+			lab := c10Establish(t, ccfg, scfg)
+			defer lab.close()
+			lab.Server.startReader()
+			if _, err := lab.Client.Conn.Write([]byte("application data")); err != nil {
+				t.Fatal(err)
+			}
+			lab.Pump.step()
+
+			msgs := c10WireMessages(t, lab.Net.since(0))
+			chIdx := c10FindLast(msgs, "client", 1)
+			if chIdx < 0 || len(msgs[chIdx].Body) < 34 || !msgs[chIdx].complete() {
+				t.Fatalf("%s: no ClientHello on the wire", v.name)
+			}
+			cr := msgs[chIdx].Body[2:34]
+			st13, ok := lab.Client.Conn.state.(*dtlsstate.State13)
+			if !ok {
+				t.Fatalf("%s: client state is %T", v.name, lab.Client.Conn.state)
+			}
+			info := c10HSInfo{Variant: v.name, Suite: st13.CipherSuite.String(), Version: "DTLS 1.3"}
+
+			items := lab.Client.Conn.handshakeCache.Pull(dtlsflight.HandshakeCachePullRule{
+				Typ: handshake.TypeCertificateVerify, Epoch: 2, IsClient: false,
+			})
+			if len(items) != 1 || items[0] == nil || len(items[0].Data) < 16 {
+				t.Fatalf("%s: the client did not retain the server's CertificateVerify", v.name)
+			}
+			scheme := items[0].Data[12:14]
+			ci := info
+			ci.Side, ci.Check = "server", "certificate_verify scheme"
+			ci.Key, ci.Scheme = v.curve.Params().Name, fmt.Sprintf("0x%04x", binary.BigEndian.Uint16(scheme))
+			c := c10HSCase{HS: ci}
+			c.Fn, c.H, c.Site = 64, 256, c10SiteCV13
+			c.Tag = "live handshake: DTLS 1.3 CertificateVerify SignatureScheme for the key's curve"
+			c.In, c.N, c.Out = []string{}, []uint64{v.group}, []string{vHex(scheme)}
+			out.emit(c)
+
+			ks := st13.KeySchedule
+			for _, l := range []struct {
+				label  string
+				secret []byte
+			}{
+				{"CLIENT_HANDSHAKE_TRAFFIC_SECRET", ks.HandshakeTraffic.Client},
+				{"SERVER_HANDSHAKE_TRAFFIC_SECRET", ks.HandshakeTraffic.Server},
+				{"CLIENT_TRAFFIC_SECRET_0", ks.ClientApplicationTrafficSecret0},
+				{"SERVER_TRAFFIC_SECRET_0", ks.ServerApplicationTrafficSecret0},
+				{"EXPORTER_SECRET", ks.ExporterMasterSecret},
+			} {
+				if len(l.secret) == 0 {
+					t.Fatalf("%s: the client's key schedule has no %s", v.name, l.label)
+				}
+				c10EmitKeyLog(out, info, "client", l.label, klog.String(), cr, l.secret)
+				c10EmitKeyLog(out, info, "server", l.label, sklog.String(), cr, l.secret)
+			}
+		})
 	}
 }
